@@ -1,7 +1,7 @@
 """Bounded symbolic exploration: breadth-first over harness actions with state merging.
 The world object supplies  actions(st) -> list of action tuples,  apply(st, action) -> list of successor states,
 check(st_before, action, st_after) -> list of violation records."""
-import time, random
+import os, time, random
 import z3
 from .core import I, Agg, Ref, Opaque, FnItem, UNINIT, is_sym
 
@@ -92,7 +92,15 @@ def state_key(st, roots, ghost_keys):
 class Result:
     def __init__(s):
         s.states = 0; s.transitions = 0; s.merged = 0; s.max_depth = 0; s.violations = []; s.truncated = 0
-        s.samples = []; s.actions = {}; s.wall = 0.0; s.complete = True; s.per_depth = []; s.inconclusive = []
+        s.samples = []; s.actions = {}; s.wall = 0.0; s.complete = True; s.per_depth = []; s.inconclusive = []; s.mem_bound = False
+
+
+_MEM_MB = int(os.environ.get('VERIF_MEM_MB', '7000'))
+def _rss_mb():
+    try:
+        with open('/proc/self/statm') as f: return int(f.read().split()[1]) * 4096 // (1 << 20)
+    except Exception:
+        return 0
 
 
 def bfs(world, init_states, depth, time_budget=None, max_states=None, seed=0, stop_on_violation=True, sample_every=997, focus=None):
@@ -117,6 +125,10 @@ def bfs(world, init_states, depth, time_budget=None, max_states=None, seed=0, st
                 # wall time is capped at 4x as a safety net
                 if time_budget is not None and (time.process_time() - c0 > time_budget or time.time() - t0 > 4 * time_budget):
                     R.complete = False; break
+                # memory bound (VERIF_MEM_MB per worker, default 7000): the frontier of a thorough-tier family can outgrow the machine when
+                # several families run side by side; reaching the bound ends the exploration like the time budget does (reported as truncated)
+                if R.transitions % 512 == 0 and _rss_mb() > _MEM_MB:
+                    R.complete = False; R.mem_bound = True; break
                 succ = world.apply(st, a)
                 R.actions[a[0]] = R.actions.get(a[0], 0) + 1
                 for st2 in succ:
